@@ -29,11 +29,17 @@ fn gen_ops(r: &mut Rng, n: usize) -> Vec<Value> {
         .collect()
 }
 
+fn with_wraps(r: &mut Rng, ops: Vec<Value>) -> Vec<Value> {
+    // an operation may sit in a taken branch, in an else branch or in the body of a function that is then called
+    ops.into_iter().map(|mut o| { o["wrap"] = json!(if r.chance(1, 3) { 1 + r.below(3) } else { 0 }); o }).collect()
+}
+
 pub fn gen(r: &mut Rng) -> Value {
     let n1 = 1 + r.below(7);
     let main = gen_ops(r, n1);
+    let main = with_wraps(r, main);
     let n2 = 1 + r.below(4);
-    let lib = if r.chance(1, 2) { Value::Array(gen_ops(r, n2)) } else { Value::Null };
+    let lib = if r.chance(1, 2) { let l = gen_ops(r, n2); Value::Array(with_wraps(r, l)) } else { Value::Null };
     let inc_at = r.below(main.len() + 1);
     json!({"ops": main, "lib": lib, "inc_at": inc_at, "as_text": r.chance(1, 4)})
 }
@@ -55,6 +61,31 @@ fn render(prefix: &str, i: usize, op: &Value) -> String {
         // a library command that fails (array_pop of something that is no handle)
         _ => format!("{} = array_pop nohandle", o),
     }
+}
+
+/// writes the operation (with its wrapper) and returns the line number the operation itself sits on
+fn push_op(lines: &mut Vec<String>, prefix: &str, i: usize, op: &Value) -> usize {
+    let w = op["wrap"].as_u64().unwrap_or(0);
+    match w {
+        1 => lines.push("if true".to_string()),
+        2 => {
+            lines.push("if false".to_string());
+            lines.push("else".to_string());
+        }
+        3 => lines.push(format!("fn {}fun{}", prefix, i)),
+        _ => {}
+    }
+    lines.push(render(prefix, i, op));
+    let at = lines.len();
+    match w {
+        1 | 2 => lines.push("end".to_string()),
+        3 => {
+            lines.push("end".to_string());
+            lines.push(format!("{}fun{}", prefix, i));
+        }
+        _ => {}
+    }
+    at
 }
 
 fn truthy(s: &str) -> bool {
@@ -149,25 +180,25 @@ pub fn run(input: &Value) -> Option<Value> {
             if let Some(l) = lib {
                 main_lines.push("!include_files ./lib.ds".to_string());
                 for (j, lop) in l.iter().enumerate() {
-                    lib_lines.push(render("l", j, lop));
+                    let at = push_op(&mut lib_lines, "l", j, lop);
                     if m.failed.is_none() {
-                        step(&mut m, "l", j, lop, j + 1, &lib_path);
+                        step(&mut m, "l", j, lop, at, &lib_path);
                     }
                 }
             }
         }
-        main_lines.push(render("m", i, op));
+        let at = push_op(&mut main_lines, "m", i, op);
         if m.failed.is_none() {
-            step(&mut m, "m", i, op, main_lines.len(), &main_src);
+            step(&mut m, "m", i, op, at, &main_src);
         }
     }
     if inc_at == main.len() {
         if let Some(l) = lib {
             main_lines.push("!include_files ./lib.ds".to_string());
             for (j, lop) in l.iter().enumerate() {
-                lib_lines.push(render("l", j, lop));
+                let at = push_op(&mut lib_lines, "l", j, lop);
                 if m.failed.is_none() {
-                    step(&mut m, "l", j, lop, j + 1, &lib_path);
+                    step(&mut m, "l", j, lop, at, &lib_path);
                 }
             }
         }
